@@ -11,9 +11,9 @@ else:
 print(f"""You are helping test a verification effort by acting as a careful saboteur. The project is davidfowl/tally, a local Python CLI rule engine that classifies bank-statement CSV transactions (source under src/tally, tests under tests/). You will work ONLY in your own scratch git worktree; never edit /repo itself and do not read anything under /verif.
 
 Set up your worktree first:
-    git -C /repo worktree add --detach /tmp/mut/{pid}/wt HEAD
-    mkdir -p /tmp/mut/{pid}/out
-Run Python as:  PYTHONPATH=/tmp/mut/{pid}/wt/src /venv/bin/python ...   (so that `import tally` resolves to YOUR worktree; check tally.__file__).
+    git -C /repo worktree add --detach /tmp/mut2/{pid}/wt HEAD
+    mkdir -p /tmp/mut2/{pid}/out
+Run Python as:  PYTHONPATH=/tmp/mut2/{pid}/wt/src /venv/bin/python ...   (so that `import tally` resolves to YOUR worktree; check tally.__file__).
 No network is available. Do not install anything.
 
 THE PROPERTY (a semantic guarantee users rely on):
@@ -23,13 +23,13 @@ THE PROPERTY (a semantic guarantee users rely on):
 
 YOUR TASK: produce TWO independent, alternative source changes (variant A and variant B; each applies on its own to a clean checkout) to the code under src/tally that each BREAK this property, while
   (1) the package still imports and the CLI still runs, and
-  (2) the existing test suite still passes exactly as before: run `/tmp/mut/baseline_check.py /tmp/mut/{pid}/wt` - it must print `baseline tests passing: 701/701` and exit 0 (85 browser/CLI tests fail or error on the clean tree too; that is expected and ignored).
-Make the changes REALISTIC - the kind of plausible bug a maintainer could introduce in a refactor, optimisation, or feature tweak (1-15 changed lines each) - and SUBTLE: they must need something specific to manifest (an unusual input, a particular combination of rules/settings, a multi-step sequence of operations, a particular ordering, a fault at a particular point, or two cooperating sites that each look fine alone). Do NOT make changes that ordinary everyday use would expose at once, and do not just delete the feature. The two variants should break the property through different mechanisms / different code locations.
+  (2) the existing test suite still passes exactly as before: run `/tmp/mut/baseline_check.py /tmp/mut2/{pid}/wt` - it must print `baseline tests passing: 701/701` and exit 0 (85 browser/CLI tests fail or error on the clean tree too; that is expected and ignored).
+Make the changes REALISTIC - the kind of plausible bug a maintainer could introduce in a refactor, optimisation, or feature tweak (1-15 changed lines each) - and SUBTLE: they must need something specific to manifest (an unusual input, a particular combination of rules/settings, a multi-step sequence of operations, a particular ordering, a fault at a particular point, or two cooperating sites that each look fine alone). Do NOT make changes that ordinary everyday use would expose at once, and do not just delete the feature. The two variants should break the property through different mechanisms / different code locations. Prefer mechanisms a reviewer would be unlikely to think of first: caches and memoisation, evaluation or iteration order, shared mutable state, default-argument or aliasing mistakes, Unicode / locale / boundary values, error-handling paths, or an interaction between two features that each look fine alone.
 
-For each variant X in (A, B) write into /tmp/mut/{pid}/out/:
+For each variant X in (A, B) write into /tmp/mut2/{pid}/out/:
   - X.patch.diff : `git diff` of the worktree against HEAD for that variant only (must apply cleanly with `git apply` on a clean checkout of HEAD; source changes only, no test edits)
   - X_demo.py    : a small standalone program that takes the source root from the environment variable TALLY_SRC (default /repo/src), puts it first on sys.path, exercises the real tally code (library calls or `python -m tally ...` subprocesses with PYTHONPATH set to that root) and exits 0 when the property holds for the demonstrated case and exits 1 (printing what went wrong) when it is violated. It must PASS (exit 0) on the clean tree and FAIL (exit 1) with variant X applied. Verify both yourself.
   - X_meta.json  : {{"property": "{pid}", "variant": "X", "summary": "...what the change does...", "needs_to_manifest": "...the specific input/sequence/config needed...", "files": [...], "verified": {{"baseline_701_pass": true/false, "demo_pass_clean": true/false, "demo_fail_mutated": true/false}}}}
-Between variants reset the worktree with `git -C /tmp/mut/{pid}/wt checkout -- .`.
+Between variants reset the worktree with `git -C /tmp/mut2/{pid}/wt checkout -- .`.
 
 When finished, reset the worktree (git checkout -- .) but leave it and the out/ directory in place, and reply with a short summary of the two variants (what, where, what is needed to manifest) and the verification results. Be honest: if a variant fails a baseline test or you could not verify something, say so.""")
